@@ -1,5 +1,6 @@
 import MokapotVerif.Wire
 import MokapotVerif.Model.FsRun
+import MokapotVerif.Model.FsRunExt
 /-! Driver glue for `Model/FsRun.lean` (C09).
 
 Names on the wire are `kind idx` with `kind ∈ chunk | level | target | decoy | input | tsv |
@@ -42,11 +43,23 @@ def nameKey : Name → Nat × Nat
   | .input => (4, 0)
   | .inputTsv => (5, 0)
   | .other s => (6, s.toNat?.getD 0)
+  | .pchunk p i => (7 + 10 * (p + 1), i)
+  | .ptarget p l => (8 + 10 * (p + 1), l)
+  | .pdecoy p l => (9 + 10 * (p + 1), l)
+  | .temp r l => (10 + 10 * (r + 1), l)
+  | .pin j => (11, j)
+  | .pinTsv j => (12, j)
+  | .model i => (13, i)
 
+/-- kind on the wire; names written under a prefix carry the prefix id in the kind
+(`ptarget0 1` = `{prefix 0}.targets.{level 1}`) -/
 def nameV (n : Name) : List V :=
   let kind := match n with
     | .chunk _ => "chunk" | .level _ => "level" | .target _ => "target" | .decoy _ => "decoy"
     | .input => "input" | .inputTsv => "tsv" | .other _ => "other"
+    | .pchunk p _ => "pchunk" ++ toString p | .ptarget p _ => "ptarget" ++ toString p
+    | .pdecoy p _ => "pdecoy" ++ toString p | .temp r _ => "temp" ++ toString r
+    | .pin _ => "pin" | .pinTsv _ => "pintsv" | .model _ => "model"
   [atom kind, ofNat (nameKey n).2]
 
 def keyLe (a b : Name × List Nat) : Bool :=
@@ -100,6 +113,126 @@ def opFsWellInit (prog : Nat → Nat → Bool → List Op) : List V → Option V
       some (ofBool (wellInit [] (prog k nl d)))
   | _ => none
 
+/-- prefix on the wire: a number, or `none` -/
+def pfx? : V → Option (Option Nat)
+  | atom "none" => some none
+  | v => (toNat? v).map some
+
+/-- collections on the wire: `[[prefix k]…]` -/
+def colls? (v : V) : Option (List (Option Nat × Nat)) :=
+  toList? (fun e => match e with
+    | list [p, k] => do
+        let p ← pfx? p
+        let k ← toNat? k
+        some (p, k)
+    | _ => none) v
+
+/-- `fsprogx <prot> <nl> <decoys> <append> [[prefix k]…]` → the operation list of
+`assign_confidence` over the collections (`append` = the caller's `append_to_output_file`), or
+`reject-valueerror` when the call is refused (`proteins` without a peptide level) -/
+def opFsProgX : List V → Option V
+  | [pr, nl, d, app, cs] => do
+      let pr ← toBool? pr
+      let nl ← toNat? nl
+      let d ← toBool? d
+      let app ← toBool? app
+      let cs ← colls? cs
+      match demoAssign pr nl d app cs with
+      | some prog => some (list (prog.map opV))
+      | none => some (atom "reject-valueerror")
+  | _ => none
+
+/-- the same for the loop before the fix of F1 (one flag) -/
+def opFsProgOldFlag : List V → Option V
+  | [pr, nl, d, cs] => do
+      let pr ← toBool? pr
+      let nl ← toNat? nl
+      let d ← toBool? d
+      let cs ← colls? cs
+      some (list ((demoRunOldFlag pr nl d cs).map opV))
+  | _ => none
+
+/-- `fswellinitx <prot> <nl> <decoys> <append> [[prefix k]…]` → does the operation list pass the
+check with nothing known at the start?  (`false` = the model itself predicts that leftovers can
+reach the results) -/
+def opFsWellInitX : List V → Option V
+  | [pr, nl, d, app, cs] => do
+      let pr ← toBool? pr
+      let nl ← toNat? nl
+      let d ← toBool? d
+      let app ← toBool? app
+      let cs ← colls? cs
+      some (ofBool (wellInit [] (demoRun pr nl d app cs)))
+  | _ => none
+
+/-- kinds with a prefix id (`ptarget0`) as printed by `nameV` -/
+def nameX? (kind : String) (idx : Nat) : Option Name :=
+  match name? kind idx with
+  | some n => some n
+  | none =>
+    if kind.startsWith "pchunk" then ((kind.drop 6).toNat?).map (fun p => Name.pchunk p idx)
+    else if kind.startsWith "ptarget" then ((kind.drop 7).toNat?).map (fun p => Name.ptarget p idx)
+    else if kind.startsWith "pdecoy" then ((kind.drop 6).toNat?).map (fun p => Name.pdecoy p idx)
+    else if kind.startsWith "temp" then ((kind.drop 4).toNat?).map (fun r => Name.temp r idx)
+    else if kind = "pin" then some (.pin idx)
+    else if kind = "pintsv" then some (.pinTsv idx)
+    else if kind = "model" then some (.model idx)
+    else none
+
+def names? (v : V) : Option (List Name) :=
+  toList? (fun e => match e with
+    | list [k, i] => do
+        let k ← kindStr? k
+        let i ← toNat? i
+        nameX? k i
+    | _ => none) v
+
+/-- the names bound in a directory, sorted -/
+def fsNamesV (fs : FS) : V :=
+  let names := (fs.map (·.1)).eraseDups
+  let eff : FS := names.filterMap (fun n => (FS.get fs n).map (fun c => (n, c)))
+  list ((eff.mergeSort keyLe).map (fun e => list (nameV e.1)))
+
+/-- `fslistx <prot> <nl> <decoys> <append> [[prefix k]…] [[kind idx]…]` → the files present after
+`exec` of the run's operation list in a directory holding exactly the given names (the listing
+the model predicts), or `reject-valueerror` -/
+def opFsListX : List V → Option V
+  | [pr, nl, d, app, cs, ns] => do
+      let pr ← toBool? pr
+      let nl ← toNat? nl
+      let d ← toBool? d
+      let app ← toBool? app
+      let cs ← colls? cs
+      let ns ← names? ns
+      let fs : FS := ns.map (fun n => (n, [0]))
+      match demoAssign pr nl d app cs with
+      | some prog => some (fsNamesV (exec fs [] prog).1)
+      | none => some (atom "reject-valueerror")
+  | _ => none
+
+/-- `fsrollup <root> <base> [levels…]` → the operation list of the roll-up tool -/
+def opFsRollup : List V → Option V
+  | [r, b, ls] => do
+      let r ← toNat? r
+      let b ← toNat? b
+      let ls ← toList? toNat? ls
+      some (list ((demoRollup r b ls).map opV))
+  | _ => none
+
+/-- `fsclimain <verify> [needs…] <prot> <nl> <decoys> [[prefix k]…] <models>` → the operation list
+of the command line run -/
+def opFsCliMain : List V → Option V
+  | [v, needs, pr, nl, d, cs, nm] => do
+      let v ← toBool? v
+      let needs ← toList? toBool? needs
+      let pr ← toBool? pr
+      let nl ← toNat? nl
+      let d ← toBool? d
+      let cs ← colls? cs
+      let nm ← toNat? nm
+      some (list ((demoCliMain v needs pr nl d cs nm).map opV))
+  | _ => none
+
 /-- `fscli [[kind idx token…]…]` → `[[final dir] [outputs]]` of the CLI verify step with
 `conv = (· + 1)` on the content read -/
 def opFsCli (prog : List Op) : List V → Option V
@@ -116,5 +249,7 @@ def fsRunOps : List (String × (List V → Option V)) :=
   [("fsrun", opFsRun demoProg), ("fsrunglob", opFsRun demoProgGlob),
    ("fsprog", opFsProg demoProg), ("fsprogglob", opFsProg demoProgGlob),
    ("fswellinit", opFsWellInit demoProg), ("fswellinitglob", opFsWellInit demoProgGlob),
-   ("fscli", opFsCli (cliProg demoConv)), ("fscliappend", opFsCli (cliProgAppend demoConv))]
+   ("fscli", opFsCli (cliProg demoConv)), ("fscliappend", opFsCli (cliProgAppend demoConv)),
+   ("fsprogx", opFsProgX), ("fsprogoldflag", opFsProgOldFlag), ("fswellinitx", opFsWellInitX), ("fslistx", opFsListX),
+   ("fsrollup", opFsRollup), ("fsclimain", opFsCliMain)]
 end Mk.Ops
